@@ -32,6 +32,9 @@ pub struct Case {
     pub close_capsule: bool,
     pub code: u32,
     pub reason: String,
+    /// raw-peer script through the UDP relay: 0 direct, 1 10 % loss, 2 reordering
+    #[serde(default)]
+    pub relay: u8,
 }
 
 pub fn case_strategy() -> impl Strategy<Value = Case> {
@@ -44,8 +47,9 @@ pub fn case_strategy() -> impl Strategy<Value = Case> {
         any::<bool>(),
         prop_oneof![Just(0u32), Just(1), any::<u32>()],
         "[a-zA-Z0-9 ]{0,24}",
+        prop_oneof![3 => Just(0u8), 1 => Just(1u8), 1 => Just(2u8)],
     )
-        .prop_map(|(flavor, wt_is_server, variant, mut items, datagrams, close_capsule, code, reason)| {
+        .prop_map(|(flavor, wt_is_server, variant, mut items, datagrams, close_capsule, code, reason, relay)| {
             // at least one healthy and one stalled item
             if !items.iter().any(|i| !i.stalled) {
                 items.push(Item { stalled: false, bidi: items[0].bidi, pos: 0 });
@@ -53,7 +57,7 @@ pub fn case_strategy() -> impl Strategy<Value = Case> {
             if !items.iter().any(|i| i.stalled) {
                 items.insert(0, Item { stalled: true, bidi: items[0].bidi, pos: 0 });
             }
-            Case { flavor, wt_is_server, variant, items, datagrams, close_capsule, code, reason }
+            Case { flavor, wt_is_server, variant, items, datagrams, close_capsule, code, reason, relay }
         })
 }
 
@@ -230,7 +234,32 @@ async fn exec_async(case: Arc<Case>) -> CaseResult {
         expect_close = format!("ApplicationClosed({},{})", case.code, vcore::hex(case.reason.as_bytes()));
         _keep = Box::new(p);
     } else {
-        let (conn, raw_conn, session, mut req_send, keep): (Connection, quinn::Connection, u64, quinn::SendStream, Box<dyn std::any::Any + Send>) = if case.wt_is_server {
+        let (conn, raw_conn, session, mut req_send, keep): (Connection, quinn::Connection, u64, quinn::SendStream, Box<dyn std::any::Any + Send>) = if case.wt_is_server && case.relay % 3 != 0 {
+            // the raw client reaches the server through a lossy / reordering relay: packets of the
+            // stalled and healthy streams are delayed or lost and retransmitted
+            let t = Tuning { initial_rtt_ms: Some(10), ..Default::default() };
+            let server_ep = wt_server(&t);
+            let addr = server_ep.local_addr().unwrap();
+            let relay = Relay::start(addr, 4242 + case.items.len() as u64).await;
+            let accept = async {
+                let incoming = server_ep.accept().await;
+                let req = incoming.await.map_err(|e| format!("incoming: {}", conn_err(&e)))?;
+                req.accept().await.map_err(|e| format!("accept: {}", conn_err(&e)))
+            };
+            let (s, r) = tokio::join!(accept, raw_client_session(relay.addr, &t, "/"));
+            match (s, r) {
+                (Ok(server), Ok(raw)) => {
+                    if case.relay % 3 == 1 {
+                        relay.set_loss(6553);
+                    } else {
+                        relay.set_reorder(3, 12);
+                    }
+                    let RawClientSession { endpoint, conn, control, req_send, req_recv, session_id, .. } = raw;
+                    (server, conn, session_id, req_send, Box::new((server_ep, endpoint, control, req_recv, relay)))
+                }
+                (Err(e), _) | (_, Err(e)) => return CaseResult::Skip(e),
+            }
+        } else if case.wt_is_server {
             match raw_client_vs_wt_server(&Tuning::default(), &Tuning::default()).await {
                 Ok(p) => {
                     let RawClientVsWt { server_ep, server, raw } = p;
@@ -312,7 +341,9 @@ async fn exec_async(case: Arc<Case>) -> CaseResult {
         if let Some(r) = wait_delivery(&shared, &healthy_idx, case.datagrams).await {
             return r;
         }
-        if case.close_capsule {
+        // through a lossy relay a CONNECTION_CLOSE packet may simply be lost (it is not
+        // retransmitted); the capsule travels on a reliable stream
+        if case.close_capsule || (case.wt_is_server && case.relay % 3 != 0) {
             let cap = refcodec::enc_frame(refcodec::registry::FRAME_DATA, &refcodec::enc_close_capsule(case.code, case.reason.as_bytes()));
             if let Err(e) = req_send.write_all(&cap).await {
                 return CaseResult::Skip(format!("capsule write: {e}"));
@@ -364,6 +395,9 @@ async fn exec_async(case: Arc<Case>) -> CaseResult {
             (_, 2) => "stall:complete-preamble",
             _ => "stall:unread-data",
         });
+    }
+    if case.variant % 2 == 0 && case.wt_is_server && case.relay % 3 != 0 {
+        labels.push(if case.relay % 3 == 1 { "relay:loss" } else { "relay:reorder" });
     }
     labels.sort();
     labels.dedup();
@@ -427,12 +461,12 @@ pub fn run(run: &Run) {
     run.assume("the application keeps accepting and reads each delivered stream in its own task");
     prop_search(
         run,
-        Search { check: "independence", cases: run.tier.pick(2000, 20000), workers: 8, max_shrink_iters: 60 },
+        Search { check: "independence", cases: run.tier.pick(1200, 12000), workers: 8, max_shrink_iters: 60 },
         case_strategy,
         |c| judge(|| exec(c), true, "C07:blocked"),
         |c| serde_json::to_value(c).unwrap(),
     );
-    for l in ["stall:no-byte", "stall:partial-preamble", "stall:complete-preamble", "stall:unread-data", "stall:unawaited-opening"] {
+    for l in ["stall:no-byte", "stall:partial-preamble", "stall:complete-preamble", "stall:unread-data", "stall:unawaited-opening", "relay:loss", "relay:reorder"] {
         run.essential(l);
     }
 }
